@@ -3,6 +3,7 @@
 package gossip
 
 import (
+	"bytes"
 	"net"
 	"sync"
 	"time"
@@ -276,6 +277,29 @@ func VerifEncodeDelta(nodeID, addr string, d []VerifDeltaEntry, maxPacketSize in
 
 func VerifEncodeDigest(nodeID, addr string, request bool, d []VerifDigestEntry, maxPacketSize int) ([]byte, error) {
 	return encodeDigest(digestHeader{NodeID: nodeID, Addr: addr, Request: request}, fromVerifDigest(d), maxPacketSize)
+}
+
+// VerifDeltaSizes returns the encoded size of the packet header and the
+// cumulative packet size after each element (node header or entry) of the
+// delta, so a harness can pick a maximum packet size that cuts the datagram at
+// a chosen element.
+func VerifDeltaSizes(nodeID, addr string, d []VerifDeltaEntry) (int, []int) {
+	var buf bytes.Buffer
+	_ = buf.WriteByte(uint8(messageTypeDelta))
+	_ = buf.WriteByte(supportedVersion)
+	enc := newEncoder(&buf)
+	_ = enc.Encode(&deltaHeader{NodeID: nodeID, Addr: addr})
+	headerLen := buf.Len()
+	var cum []int
+	for _, de := range d {
+		_ = enc.Encode(&deltaHeader{NodeID: de.ID, Addr: de.Addr, Entries: len(de.Entries)})
+		cum = append(cum, buf.Len())
+		for _, e := range de.Entries {
+			_ = enc.Encode(e)
+			cum = append(cum, buf.Len())
+		}
+	}
+	return headerLen, cum
 }
 
 // Digest returns the node's current digest.
